@@ -43,6 +43,11 @@ class Obj:
         return f"<{self.cls.name if self.cls else 'obj'} {self.name or ''}>"
 
 
+class GenResult(list):
+    """What an interpreted generator yielded, plus the exception it ended with (raised when a consumer exhausts it)."""
+    pending = None
+
+
 class Native:
     """Base class for checker-side abstract objects (e.g. the multigraph stub): attributes are used natively."""
 
@@ -159,6 +164,18 @@ class Interp:
             return consts[0][1]
         # module-level constant: evaluate its (single) defining expression in the module environment
         bs = self.m.binding_scope(scope, name) if scope is not None else None
+        hops = 0
+        while bs is not None and not isinstance(bs, Func) and hops < 4:
+            # a module-level name imported from another repo module: follow the import to where it is assigned
+            imps = [b for b in bs.bindings.get(name, []) if b[0] == "import"]
+            if len(imps) != 1 or len(bs.bindings.get(name, [])) != 1 or not isinstance(imps[0][1], str) or "." not in imps[0][1]:
+                break
+            modname, _, attr_ = imps[0][1].rpartition(".")
+            tgt = self.m.modules.get(modname)
+            if tgt is None or attr_ not in tgt.bindings:
+                break
+            bs, name = tgt, attr_
+            hops += 1
         if bs is not None and not isinstance(bs, Func):
             items = [b for b in bs.bindings.get(name, []) if b[0] == "assign" and not b[2]]
             if len(items) >= 1:
@@ -220,6 +237,37 @@ class Interp:
             init = f.cls.lookup("__init__")
             if isinstance(init, Func):
                 self.call_func(init, None, args, kwargs, obj)
+            elif any(norm(d_.func if isinstance(d_, ast.Call) else d_).split(".")[-1] == "dataclass" for c_ in f.cls.repo_mro() for d_ in c_.node.decorator_list):
+                # @dataclass: the generated __init__ binds the annotated fields (base classes first) positionally / by keyword /
+                # from their defaults (`= value`, field(default=...), field(default_factory=...))
+                fields = []
+                for c_ in reversed(f.cls.repo_mro()):
+                    for st in c_.node.body:
+                        if isinstance(st, ast.AnnAssign) and isinstance(st.target, ast.Name) and "ClassVar" not in norm(st.annotation):
+                            fields = [x for x in fields if x[0] != st.target.id] + [(st.target.id, st.value, c_)]
+                if len(args) > len(fields) or any(k not in [n_ for n_, _v, _c in fields] for k in kwargs):
+                    raise AbsRaise("TypeError: dataclass construction")
+                for i, (nm, dflt, c_) in enumerate(fields):
+                    if i < len(args):
+                        obj.attrs[nm] = args[i]
+                    elif nm in kwargs:
+                        obj.attrs[nm] = kwargs[nm]
+                    elif dflt is not None:
+                        if isinstance(dflt, ast.Call) and norm(dflt.func).split(".")[-1] == "field":
+                            kw_ = {k_.arg: k_.value for k_ in dflt.keywords}
+                            if "default" in kw_:
+                                obj.attrs[nm] = self.eval(kw_["default"], Env(c_.module))
+                            elif "default_factory" in kw_:
+                                obj.attrs[nm] = self.call(self.eval(kw_["default_factory"], Env(c_.module)), [], {})
+                            else:
+                                raise AbsRaise(f"TypeError: missing field {nm}")
+                        else:
+                            obj.attrs[nm] = self.eval(dflt, Env(c_.module))
+                    else:
+                        raise AbsRaise(f"TypeError: missing field {nm}")
+                post = f.cls.lookup("__post_init__")
+                if isinstance(post, Func):
+                    self.call_func(post, None, [], {}, obj)
             elif any(x.split(".")[-1] == "NamedTuple" for x in f.cls.ext_bases()):
                 # typing.NamedTuple: the annotated fields, in order, bound positionally / by keyword / from defaults
                 fields = [(st.target.id, st.value) for st in f.cls.node.body
@@ -299,12 +347,18 @@ class Interp:
             return self.eval(func.node.body, env)
         is_gen = any(isinstance(n, (ast.Yield, ast.YieldFrom)) for n in func.own_nodes())
         if is_gen:
-            out = []
+            # a generator is run to its end when it is created and handed out as the list of what it yielded; an exception raised
+            # after some yields is kept *pending* and surfaces only when a consumer exhausts the generator (a consumer that stops
+            # early - break, next() - never sees it), as in Python
+            out = GenResult()
             env.vars["__yield__"] = out
             try:
                 self.exec_block(func.node.body, env)
             except _Return:
                 pass
+            except AbsRaise as e_:
+                self.tb_here(e_.value, env)
+                out.pending = e_
             return out
         try:
             self.exec_block(func.node.body, env)
@@ -362,7 +416,9 @@ class Interp:
         elif isinstance(s, ast.If):
             self.exec_block(s.body if self.truth(self.eval(s.test, env)) else s.orelse, env)
         elif isinstance(s, ast.For):
-            it = self.iterate(self.eval(s.iter, env))
+            src_ = self.eval(s.iter, env)
+            pending_ = src_.pending if isinstance(src_, GenResult) else None
+            it = list(src_) if isinstance(src_, GenResult) else self.iterate(src_)
             broke = False
             for x in it:
                 self.assign(s.target, x, env)
@@ -374,6 +430,8 @@ class Interp:
                 except _Continue:
                     continue
             if not broke:
+                if pending_ is not None:
+                    raise pending_
                 self.exec_block(s.orelse, env)
         elif isinstance(s, ast.While):
             while self.truth(self.eval(s.test, env)):
@@ -509,6 +567,10 @@ class Interp:
 
     # ------------------------------------------------------------------ expressions
     def iterate(self, v):
+        if isinstance(v, GenResult):
+            if v.pending is not None:
+                raise v.pending  # the consumer exhausts the generator
+            return list(v)
         if isinstance(v, Obj) and "__tuple_fields__" in v.attrs:
             return [v.attrs[n_] for n_ in v.attrs["__tuple_fields__"]]
         if isinstance(v, (list, tuple, set, frozenset, dict, range)):
@@ -531,6 +593,18 @@ class Interp:
                 return a // b
             if isinstance(op, ast.Mod):
                 return a % b
+            if isinstance(op, ast.Div):
+                return a / b
+            if isinstance(op, ast.BitOr) and not isinstance(a, Obj) and not isinstance(b, Obj):
+                return a | b  # set / dict union, integer or
+            if isinstance(op, ast.BitAnd) and not isinstance(a, Obj) and not isinstance(b, Obj):
+                return a & b
+            if isinstance(op, ast.BitXor) and not isinstance(a, Obj) and not isinstance(b, Obj):
+                return a ^ b
+            if isinstance(op, ast.Pow):
+                return a ** b
+        except ZeroDivisionError:
+            raise AbsRaise("ZeroDivisionError")
         except TypeError as e:
             raise AbsRaise(f"TypeError: {e}")
         raise AnalysisError(f"evaluator: operator {type(op).__name__}")
@@ -785,6 +859,9 @@ class Interp:
             if attr in ("__file__", "__name__"):
                 return o[1].path if attr == "__file__" else o[1].name
             raise AnalysisError(f"evaluator: module attribute {attr}")
+        if isinstance(o, Stub) and attr in ("__qualname__", "__name__", "__module__"):
+            # a stub stands for a (user) function: it has a name and lives in some module outside uberjob
+            return "user_module" if attr == "__module__" else o.name
         if isinstance(o, Stub):
             n = f"{o.name}.{attr}"
             fb = self.ext.get(n) or BUILTINS.get(n) or self.higher_order(n)
